@@ -500,6 +500,14 @@ impl BTreeSet<PathBuf> {
     pub fn contains(&self, p: &PathBuf) -> (r: bool) ensures r == paths(self@).contains(p@) { unimplemented!() }
     #[verifier::external_body]
     pub fn insert(&mut self, p: PathBuf) -> (r: bool) ensures paths(final(self)@) == paths(old(self)@).insert(p@) { unimplemented!() }
+    #[verifier::external_body]
+    pub fn remove(&mut self, p: &PathBuf) -> (r: bool) ensures paths(final(self)@) == paths(old(self)@).remove(p@), r == paths(old(self)@).contains(p@) { unimplemented!() }
+    #[verifier::external_body]
+    pub fn len(&self) -> (r: usize) ensures r == paths(self@).len() { unimplemented!() }
+    #[verifier::external_body]
+    pub fn is_empty(&self) -> (r: bool) ensures r == (paths(self@).len() == 0) { unimplemented!() }
+    #[verifier::external_body]
+    pub fn clear(&mut self) ensures paths(final(self)@) == Set::<Seq<char>>::empty() { unimplemented!() }
 }
 #[verifier::external_body]
 pub fn empty_path_set() -> (r: BTreeSet<PathBuf>) ensures r@.len() == 0 { unimplemented!() }
